@@ -414,7 +414,7 @@ func c19Run(t *rapid.T, st *Stats) {
 		"Sign":            func(t *rapid.T) { doSign(t, false) },
 		"ValidateAndSign": func(t *rapid.T) { doSign(t, true) },
 		"UnmarshalCOSE": func(t *rapid.T) {
-			kind := rapid.SampledFrom([]string{"valid", "valid", "valid-other-header-spelling", "valid-other-header-spelling", "invalid-claims", "invalid-claims", "other-profile", "tampered-signature", "payload-not-claims", "payload-bad-claim", "payload-bad-claim", "garbage", "truncated", "own-last-token"}).Draw(t, "token")
+			kind := rapid.SampledFrom([]string{"valid", "valid", "valid-other-header-spelling", "valid-other-header-spelling", "invalid-claims", "invalid-claims", "other-profile", "tampered-signature", "payload-not-claims", "payload-bad-claim", "payload-bad-claim", "garbage", "truncated", "own-last-token", "last-token-other-payload", "last-token-other-payload"}).Draw(t, "token")
 			ki := rapid.IntRange(0, len(keys)-1).Draw(t, "key")
 			k := keys[ki]
 			var tok []byte
@@ -526,6 +526,26 @@ func c19Run(t *rapid.T, st *Stats) {
 				full, _ := icose.SignedToken(k.Alg, k.Priv, baseValid(P2, 0).WireBytes())
 				tok = full[:rapid.IntRange(0, len(full)-1).Draw(t, "cut")]
 				layer = "cose"
+			case "last-token-other-payload":
+				// the token this Evidence holds (and has just been verified
+				// with every key), re-assembled around OTHER claims: protected
+				// header and signature are the genuine ones, the payload is not
+				// what they cover - no key verifies it
+				if mc.env.kind != "tok" {
+					t.Skip("no token yet")
+				}
+				parts, ok := icose.Split(mc.env.tok)
+				if !ok {
+					t.Skip("held token has another shape")
+				}
+				m := GenValid(t, drawProf(t), false)
+				pay := m.WireBytes()
+				if bytes.Equal(pay, parts.Payload) {
+					t.Skip("same payload")
+				}
+				canonical = true
+				tok = icbor.Encode(icose.Envelope(parts.Protected, icbor.Map(), pay, parts.Signature))
+				keyIdx = -1
 			case "own-last-token":
 				if mc.env.kind != "tok" {
 					t.Skip("no token yet")
@@ -648,7 +668,7 @@ func c19Run(t *rapid.T, st *Stats) {
 }
 
 func TestC19_EvidenceHistories(t *testing.T) {
-	st := NewStats("C19", "TestC19_EvidenceHistories", "rapid state machine on one Evidence (avg 30 steps): SetClaims(valid|invalid; valid claims of registered extension profiles incl. an extension of an extension and an OID-named one, of an extension profile NOT registered in this process, and claims with non-UTF-8 free text - the latter two encode but cannot be decoded here, the binding clause is then evaluated on the payload bytes), Sign / ValidateAndSign with good signers (EdDSA, ES256, ES384, PS256 keys) and injected signer faults (error, empty signature, nil signature, junk bytes, unsupported algorithm, reserved algorithm 0), UnmarshalCOSE(valid | tampered-signature | payload-not-claims | correctly signed claims map with one wrong-typed claim | garbage | truncated | own last token), Verify with every pool key and nil, two consecutive signs. Reference model of the envelope state {none, tok(T,k), maybe(T,k)} and of claim replacement; binding clause evaluated with the independent splitter/verifier at every successful Verify. Non-trivial = history has a failed operation followed by Verify, or a decode after a sign; distinct = history")
+	st := NewStats("C19", "TestC19_EvidenceHistories", "rapid state machine on one Evidence (avg 30 steps): SetClaims(valid|invalid; valid claims of registered extension profiles incl. an extension of an extension and an OID-named one, of an extension profile NOT registered in this process, and claims with non-UTF-8 free text - the latter two encode but cannot be decoded here, the binding clause is then evaluated on the payload bytes), Sign / ValidateAndSign with good signers (EdDSA, ES256, ES384, PS256 keys) and injected signer faults (error, empty signature, nil signature, junk bytes, unsupported algorithm, reserved algorithm 0), UnmarshalCOSE(valid | tampered-signature | payload-not-claims | correctly signed claims map with one wrong-typed claim | garbage | truncated | own last token | the held (and verified) token re-assembled around other claims under its genuine protected header and signature), Verify with every pool key and nil, two consecutive signs. Reference model of the envelope state {none, tok(T,k), maybe(T,k)} and of claim replacement; binding clause evaluated with the independent splitter/verifier at every successful Verify. Non-trivial = history has a failed operation followed by Verify, or a decode after a sign; distinct = history")
 	st.Require = []string{"fail-then-verify", "decode-after-sign", "signer-fault", "good-sign", "claims-not-decodable-here", "extension-claims"}
 	defer st.Flush(t)
 	registerMu.Lock()
